@@ -757,6 +757,12 @@ class _Exec:
                 mf = self.p.module_frame(modname)
                 if attr in mf.env:
                     return mf.env[attr]
+                # import cycle (frame under construction): plain defs need no evaluation
+                for n in self.p.modules[modname].tree.body:
+                    if isinstance(n, ast.ClassDef) and n.name == attr:
+                        return ("class", f"{modname}.{attr}")
+                    if isinstance(n, ast.FunctionDef) and n.name == attr and not n.decorator_list:
+                        return ("func", f"{modname}.{attr}")
             if dotted in self.p.modules:
                 return ("glob", dotted)
             if modname in self.p.modules:
